@@ -228,7 +228,8 @@ type crashCase struct {
 	Calls      int    `json:"calls"`
 	K          int    `json:"k"`
 	How        string `json:"how"`
-	Twin       bool   `json:"twin"` // two appenders (descriptors) on the one target file
+	Twin       bool   `json:"twin"`   // two appenders (descriptors) on the one target file
+	Poison     int    `json:"poison"` // every poison-th call of a goroutine cannot be encoded (0: none)
 }
 
 func cmdCrash(f hx.Flags, r *hx.Result) {
@@ -267,7 +268,9 @@ func cmdCrash(f hx.Flags, r *hx.Result) {
 			if rawEvery {
 				args = append(args, "--rawevery", "3")
 			}
-			if n%5 == 1 {
+			if c.Poison > 0 {
+				args = append(args, "--poison", strconv.Itoa(c.Poison))
+			} else if n%5 == 1 {
 				args = append(args, "--poison", "4")
 			}
 			if kind == "rollinglogger" && !rawEvery {
